@@ -8,6 +8,12 @@ from pyvc.spec import contract
 from pyvc.values import PyObj, PyList, PyDict
 from . import lib
 
+from pyvc import spec as _spec
+from pyvc.values import Builtin as _Builtin
+def _install_sys(I):
+    I.spec_fns['sys_stdout'] = _Builtin('spec.sys_stdout', lambda I_, a, k: I_.load_module('sys').ns['stdout'])
+_spec.EXTRA_INSTALLERS.append(_install_sys)
+
 SO = 'bardolph/lib/std_out_output.py'
 VI = 'bardolph/vm/vm_io.py'
 
@@ -171,3 +177,25 @@ def _setup(b, case):
 c.setup(_setup)
 c.ensures('variables-by-their-exact-names-registers-by-the-documented-ones',
           "len(ghost('Calls')) == 1 and ghost('Calls')[0][2][0] == '{Hue}|{power}|{result}|{hue}'.format(Hue=_Hue, power=_power, result=_result, hue=_reg.hue)")
+
+
+# ---- standard output belongs to the script: the log goes to a file or to the error stream, never to standard output
+#      (logging.basicConfig without `stream` writes to sys.stderr)
+LC = 'bardolph/lib/log_config.py'
+for console in (True, False):
+    c = contract(LC, 'LogConfig.configure', serves=['C19'], name='LogConfig.configure[log_to_console=%s]' % console)
+    def _setup(b, case, console=console):
+        from pyvc.values import Opaque
+        lib.injection_reset(b)
+        def get_value(I_, o, a, k):
+            if a[0] == 'log_to_console':
+                return console
+            return a[1] if len(a) > 1 else None
+        lib.provide(b, b.cls('bardolph.lib.i_lib', 'Settings'), Opaque('settings', {'get_value': get_value}))
+        b.ghost('logging_config', PyList())
+        dt = b.module('datetime')
+        return {'self': PyObj(b.cls('bardolph.lib.log_config', 'LogConfig'), {})}
+    c.setup(_setup)
+    c.ensures('configured-once-and-never-onto-standard-output',
+              "len(ghost('logging_config')) == 1 and (not ('stream' in ghost('logging_config')[0]) or not same(ghost('logging_config')[0]['stream'], sys_stdout()))"
+              + (" and not ('filename' in ghost('logging_config')[0])" if console else " and 'filename' in ghost('logging_config')[0]"))
